@@ -56,7 +56,8 @@ KIND_NAMES = {
     "lit": ["mode"],
     "bounded": ["level"],
     "validated": ["even"],
-    "tup2": ["pair"],      # Tuple[int, str]      (only in profiles that list it: C03)
+    "litint": ["grade"],   # Literal[1, 2]        (only in profiles that list it: C03)
+    "tup2": ["pair"],      # Tuple[int, str]
     "tupvar": ["series"],  # Tuple[int, ...]
     "list_int": ["nums", "values"],
     "dict_int": ["scores", "weights"],
@@ -145,6 +146,7 @@ GOOD_FNS = {
     "lit": ["a", "b", "ident"],
     "bounded": ["inc", "zero", "ident", "dbl"],
     "validated": ["dbl", "zero", "ident", "two"],
+    "litint": ["two", "ident"],
     "tup2": ["ident", "tup_copy"],
     "tupvar": ["ident", "tup_copy", "tup_more"],
     "list_int": ["rev", "app9", "empty_list", "ident"],
@@ -164,6 +166,7 @@ BAD_FNS = {
     "lit": ["zero", "bang"],
     "bounded": ["neg_one", "tostr"],
     "validated": ["inc_odd", "tostr"],
+    "litint": ["zero", "tostr", "to_true", "to_float"],
     "tup2": ["tolist", "tup_rev", "zero", "tup_more"],
     "tupvar": ["tolist", "tup_s", "none"],
     "list_int": ["app_s", "zero"],
@@ -173,6 +176,8 @@ BAD_FNS = {
     "leaf": ["zero", "none"],
     "kitem": ["zero", "none", "kitem_key"],
 }
+FUNCS["to_true"] = lambda x: True      # equal to the choice 1, but a bool
+FUNCS["to_float"] = lambda x: float(x)  # equal to the choice it was, but a float
 FUNCS["tup_copy"] = lambda t: tuple(t)
 FUNCS["tup_more"] = lambda t: tuple(t) + (7,)
 FUNCS["tup_rev"] = lambda t: tuple(reversed(t))
@@ -220,6 +225,7 @@ DEFAULT_PROFILE = {
     "allow_frozen": False,
     "allow_class_dnc": False,
     "allow_parent_class_dnc": False,
+    "allow_post_copy_assign": False,
     "allow_attr_dnc": True,
     "allow_key": True,
     "allow_sub": True,
@@ -313,13 +319,6 @@ def gen_class_spec(src, profile=None):
                 a["prepare_item"] = src.choice(["ident", "id2key", "id2key"])
             else:
                 a["prepare_item"] = "ident"
-        if kind == "any":
-            # Attr(default=<value containing a module>) cannot be declared at all: the library deep-copies the
-            # Attr declaration without module protection.  Use styles that never put the value inside an Attr.
-            if a["default"][0] in ("attr", "field"):
-                a["default"][0] = "factory"
-            elif a["default"][0] == "lit" and a["flags"]:
-                a["default"][0] = "factory"
         attrs.append(a)
     for a in list(attrs):
         if str(a.get("prepare", "")).startswith("lookup_"):
@@ -382,6 +381,8 @@ def gen_class_spec(src, profile=None):
             host["post_init"] = "keep"
             host["post_init_route"] = src.choice(["deepcopy", "reset", "update", "transform", "with"])
         host["post_copy"] = src.chance(0.25)
+        if p.get("allow_post_copy_assign") and src.chance(0.5):
+            host["post_copy"] = "assign"  # the hook finishes the copy by assigning to it (the documented use)
     if p["allow_new_shapes"] and src.chance(0.5):
         # where instance creation comes from: the class's own __new__, a plain base class providing it, a plain
         # mix-in in front (nothing of its own), or the mix-in in front of the base that provides it
@@ -489,6 +490,8 @@ def good_value(src, kind, small=False):
         return src.choice([0, 1, 10])
     if kind == "validated":
         return src.choice([0, 2, -4, 8])
+    if kind == "litint":
+        return src.choice([1, 2])
     if kind == "tup2":
         return ["tuple", [src.choice([0, 1, 5]), src.choice(["", "a", "xy"])]]
     if kind == "tupvar":
@@ -585,6 +588,8 @@ def bad_values(kind):
         return [-1, "s", None, ["float", "2.5"], ["float", "1.0"], ["float", "10.0"], ["float", "0.0"]]
     if kind == "validated":
         return [1, "s", None, 3, ["float", "2.0"], ["float", "8.0"], ["float", "0.0"]]
+    if kind == "litint":
+        return [True, ["float", "1.0"], ["float", "2.0"], 3, 0, "1", None]
     if kind == "tup2":
         return [["tuple", [1, 2]], ["tuple", ["a", "b"]], ["tuple", [1]], ["tuple", [1, "a", 2]], ["tuple", []],
                 ["list", [1, "a"]], 5, None, ["tuple", [["float", "1.0"], "a"]], ["tuple", [1, None]]]
@@ -684,6 +689,8 @@ def annotation_for(kind, classes, faults):
         return bounded(int, ge=0)
     if kind == "validated":
         return validated(make_callback(faults, "validator", is_even_int), name="Even")
+    if kind == "litint":
+        return Literal[1, 2]
     if kind == "tup2":
         return typing.Tuple[int, str]
     if kind == "tupvar":
@@ -813,10 +820,6 @@ def _default_entry(default, flags, classes, faults, attr_name, prepare=None, pre
     val = default[1]
     if style == "lit" and not needs_attr:
         return build_value(val, classes, None)
-    if _has_module(val) and style in ("lit", "attr", "field"):
-        # Attr(default=<value containing a module>) cannot be declared: the library deep-copies the Attr
-        # declaration itself without module protection.  Declare it through a factory instead.
-        style = "factory"
     if style in ("lit", "attr"):
         return Attr(default=build_value(val, classes, None), **akw)
     if style in ("factory", "field_factory") or (style == "field" and isinstance(val, list)):
@@ -997,6 +1000,8 @@ def materialise(spec, faults, name_suffix=""):
     if h.get("post_copy"):
         def post_copy(self):
             faults.hit("post_copy:host")
+            if h["post_copy"] == "assign":
+                self.copies_ = getattr(self, "copies_", 0) + 1
         ns["__post_copy__"] = post_copy
     # item preparers need the singular name, which the library decides; we compute it
     # with the library's own naming helper (naming is not under test here).
